@@ -60,8 +60,8 @@ Definition note_code (n : fnote) : ncode :=
       (if isn || isd || isx then Some (fv n) else None)
       (Qred (fdur n))
       (if negb (fo n =? 0) then Some (fo n) else None)                 (* also printed for rests / continuations: r.oabs(1) *)
-      (if isn then fmode n else None)
-      (if isn then facc n else None)
+      (fmode n)
+      (facc n)
       (if isn || isx || isd then (let f := amp_figure (famp n) in if ampfig_eqb f Fmf then None else Some f) else None)
       (ftags n).
 
